@@ -87,6 +87,10 @@ static void* vll_alloc(uint64_t n){ void* p = malloc(n ? n : 1); if (!p) exit(3)
 #endif
 
 /* ------------------------------------------------------------------ both modes */
+int vll_alloc_forbidden;          /* harness: from now on any heap / mmap allocation is a violation (C11) */
+void vll_forbidden(void){ vassert_at(0, 9200); }   /* a function that must be unreachable on the analysed path was reached */
+static void alloc_check(void){ if (vll_alloc_forbidden) vassert_at(0, 9201); }
+uint64_t vll_rdtsc(void){ return vnd_u64(); }      /* the TSC is environment: any value */
 int vll_printf(void* fmt, ...){ return 0; }
 int vll_fprintf(void* f, void* fmt, ...){ return 0; }
 int vll_puts(void* s){ return 0; }
@@ -94,6 +98,12 @@ int vll_cxa_atexit(void* f, void* o, void* d){ return 0; }
 int vll_guard_acquire(void* g){ return *(uint8_t*)g == 0; }
 void vll_guard_release(void* g){ *(uint8_t*)g = 1; }
 void vll_pure_virtual(void){ vassert_at(0, 0); }
+
+#ifdef __CPROVER__
+/* libc string scans CBMC's built-in library does not provide */
+void* memchr(const void* s, int c, size_t n){ const unsigned char* p = s; for (size_t i = 0; i < n; i++) if (p[i] == (unsigned char)c) return (void*)(p + i); return 0; }
+size_t strnlen(const char* s, size_t n){ size_t i = 0; while (i < n && s[i]) i++; return i; }
+#endif
 
 /* allocation: failure is outside every claim (pointer assumed non-null) */
 #ifdef VLL_ALIGNED_NEW_HOOK
@@ -105,10 +115,10 @@ void _ZdlPvmSt11align_val_t(void* p, uint64_t n, uint64_t a){ vh_aligned_delete(
 #define VLL_NO_ALIGNED_MODELS 1
 #endif
 #ifndef VLL_NO_ALLOC_MODELS
-void* _Znwm(uint64_t n){ return vll_alloc(n); }
-void* _Znam(uint64_t n){ return vll_alloc(n); }
+void* _Znwm(uint64_t n){ alloc_check(); return vll_alloc(n); }
+void* _Znam(uint64_t n){ alloc_check(); return vll_alloc(n); }
 #ifndef VLL_NO_ALIGNED_MODELS
-void* _ZnwmSt11align_val_t(uint64_t n, uint64_t a){ return vll_alloc(n); }
+void* _ZnwmSt11align_val_t(uint64_t n, uint64_t a){ alloc_check(); return vll_alloc(n); }
 #endif
 void* _ZnamSt11align_val_t(uint64_t n, uint64_t a){ return vll_alloc(n); }
 void _ZdlPv(void* p){ VLL_FREE(p); }
